@@ -25,6 +25,12 @@ const (
 	VerifPointFreeClosed        = 8  // Channel.Free: user side closed, before the reference is released
 	VerifPointWindowChecked     = 9  // Channel.Send: window found insufficient, before the wait
 	VerifPointReceiveLoopClosed = 10 // receive loop: close message, channel deleted from the map, before it is closed
+	VerifPointListenerChecked   = 11 // Conn.OnClosed: closed flag checked, before the listener is stored
+	VerifPointListenerStored    = 12 // Conn.OnClosed: listener stored, before the closed flag is checked again
+	VerifPointConnClosedSet     = 13 // connection close: closed flag set and write queue closed, before channels are closed and listeners run
+	VerifPointConnClosing       = 14 // connection close: context cancelled and socket closed, before the closed flag is set
+	VerifPointClientSlowPath    = 15 // Client.Conn: no usable connection on the fast path, before the client mutex is taken
+	VerifPointClientConnStarted = 16 // client connect: connection goroutine started, before the connection is added to the client
 )
 
 // VerifYieldHook is called at the schedule points above (build tag verif only),
